@@ -91,7 +91,8 @@ pub fn arb_c13() -> BoxedStrategy<C13Case> {
         prop::bool::weighted(0.2),
         // mostly short reconnect delays; now and then seconds, which a task that honours its
         // handles during a wait never actually spends
-        prop_oneof![9 => 20u16..40, 1 => Just(3000u16)],
+        // ... and a delay of zero: the wait state is still announced, and left at once
+        prop_oneof![8 => 20u16..40, 1 => Just(3000u16), 1 => Just(0u16)],
         1u16..=4,
         proptest::option::weighted(0.5, 1u8..3),
         vec(env, 1..6),
